@@ -14,7 +14,7 @@ LEVEL_TEXT = ("Static structural proof of necessary conditions: (R7.1) every nor
               "computed from the single adjustment (1 + header) computed in validate; (R7.3) in the closure of "
               "SpreadsheetValidator.validate no possibly-None conversion result is used arithmetically or "
               "dereferenced unguarded. Equality with string-level validation and shuffle invariance are NOT decided.")
-LEVEL_EXTRA = "Added after the seeded evaluation: (R7.4) the column-structure checks see the caller's table, not the onset-sorted copy; (R7.5) the onset pass maps back to file rows through original_index; (R7.6) a row is excluded from the row-level and temporal checks only under an error-severity test. (R7.7) no issue list is discarded inside the table-validation modules; (R7.8) a column assigned during assembly carries the frame's own index; (R7.9) index labels are never used as positions (or vice versa) in the validators and df_util, and the per-row mask is computed over the file's own rows."
+LEVEL_EXTRA = "Added after the seeded evaluation: (R7.4) the column-structure checks see the caller's table, not the onset-sorted copy; (R7.5) the onset pass maps back to file rows through original_index; (R7.6) a row is excluded from the row-level and temporal checks only under an error-severity test. (R7.7) no issue list is discarded inside the table-validation modules; (R7.8) a column assigned during assembly carries the frame's own index; (R7.9) index labels are never used as positions (or vice versa) in the validators and df_util, and the per-row mask is computed over the file's own rows. (R7.10) float()/int() of table cell text only inside a ValueError handler."
 
 FUNCS = ["validate", "_run_checks", "_run_onset_checks", "_validate_column_structure"]
 
@@ -214,6 +214,39 @@ def run(ctx):
                               "index renumbered) but `_run_checks` looks it up with the file row's label" % norm(kw.value),
                               desc="per-row mask computed over the file's own rows")
     ctx.floor("R7.9", "masks passed to the per-row pass", n_mask, 1)
+
+    # ---- R7.10: cell text is converted to a number only where a failure is caught
+    ctx.rule("R7.10", "float()/int() of table cell text in the table-validation path is inside a handler for ValueError (cells may hold n/a or any text)")
+    n_conv = 0
+    for f in prog.functions.values():
+        if f.module.name not in ("hed.models.df_util", "hed.validator.spreadsheet_validator", "hed.models.base_input"):
+            continue
+        pm = None
+        for c in walk_no_nested(f.node):
+            if isinstance(c, ast.Call) and isinstance(c.func, ast.Name) and c.func.id in ("float", "int") and c.args and \
+                    any(isinstance(x, ast.Subscript) for x in ast.walk(c.args[0])):
+                n_conv += 1
+                ctx.saw(f)
+                if pm is None:
+                    pm = {}
+                    for p_ in ast.walk(f.node):
+                        for ch in ast.iter_child_nodes(p_):
+                            pm[id(ch)] = p_
+                cur, caught = c, False
+                while id(cur) in pm:
+                    par = pm[id(cur)]
+                    if isinstance(par, ast.Try) and any(cur is b or any(cur is y for y in ast.walk(b)) for b in par.body):
+                        for h in par.handlers:
+                            names = [norm(h.type)] if h.type is not None and not isinstance(h.type, ast.Tuple) else \
+                                ([norm(e) for e in h.type.elts] if h.type is not None else ["BaseException"])
+                            if any(nm.split(".")[-1] in ("ValueError", "Exception", "BaseException") for nm in names):
+                                caught = True
+                    cur = par
+                ctx.check(caught, "R7.10", f.qualname, c, loc(f, c),
+                          "`%s` converts the text of a table cell outside any handler for ValueError: a cell holding `n/a` (or any "
+                          "non-numeric text) makes file validation raise instead of returning issues" % norm(c)[:50],
+                          desc="%s: `%s` guarded by a ValueError handler" % (f.short, norm(c)[:30]))
+    ctx.floor("R7.10", "numeric conversions of cell text in the table path", n_conv, 1)
 
     # ---- R7.7: nothing a callee reports is thrown away on the way to the table's result
     ctx.rule("R7.7", "no issue list returned inside the table-validation modules is discarded")
